@@ -38,8 +38,6 @@ func ClientGet(c *http.Client, url string) (*http.Response, error) {
 	return &http.Response{StatusCode: int(U64("http.status")), Status: Str("http.statusText"), Body: &StrReader{S: Str("http.respBody")}}, nil
 }
 
-//wsym:replace io.LimitReader
-func LimitReader(r io.Reader, n int64) io.Reader { return r }
 
 // ---------- URLs ----------
 
